@@ -794,7 +794,7 @@ def run(rec, shard, nshards, t):
         strings.append(('attr', s))
     mine = [x for i, x in enumerate(strings) if i % nshards == shard]
     pool = [s for _, s in strings]
-    n_mut = (1500 if t == 'quick' else 120000) // nshards
+    n_mut = (1500 if t == 'quick' else 600000) // nshards
     for _ in range(n_mut):
         mine.append(('mutant', mutate(rnd, pool)))
     for kind, s in mine:
@@ -815,6 +815,8 @@ def run(rec, shard, nshards, t):
         for s in ['description.__class__', '(r for r in rows).gi_frame', 'f"{amount}"', '"{0.__class__}".format(amount)']:
             rec.sample(s)
         generator_tag_probe(rec, ep)
+        if t != 'quick':
+            core.repo_tests_with_monitors(rec, 'C03')
     for k, v in nodes.items():
         rec.count('node_evaluated:' + k, v)
 
